@@ -1151,7 +1151,9 @@ def check_C11(tier, seed):
         run_harness(binp, ["pred", "--cases", cases_file, "--out", rf, "--seed", str(seed)])
         pr = json.load(open(rf))
         tf = os.path.join(OUT, "C11_tokens_%s.json" % be)
-        run_harness(binp, ["tokens", "--inputs", inf, "--out", tf])
+        # one worker thread: every cell is built by the same thread, in index order - state that a backend keeps between calls
+        # (per-thread caches) acts deterministically there; the default pool is covered by C09
+        run_harness(binp, ["tokens", "--inputs", inf, "--out", tf], env_extra={"RAYON_NUM_THREADS": "1"})
         tk = json.load(open(tf))
         per_backend[be] = (pr, tk)
         log("backend %s: pred %s, exact calls %d (non-zero decisions %d)" % (be, pr["stats"], tk["exact_calls"], tk["nonzero_exact_decisions"]))
